@@ -134,6 +134,11 @@ def r17_1(ctx):
                     r.ob(key + " -> its %s type argument%s" % ("first" if which == "first" else "second", " without null" if alt == "NonNullable" else ""), ok, C.mloc(rt, a), txt[:160])
                     continue
                 want = table.get(alt)
+                if want is not None and a.get("guard") is not None and name in ("type reference name", "keyword", "literal type"):
+                    # a guarded entry applies to some uses of the name only; the others fall through to the default
+                    r.ob(key + " -> " + "/".join(sorted(want)), False, C.mloc(rt, a),
+                         "the entry is guarded by `%s`: where the guard fails this name falls through to the default arm" % expr_str(a["guard"])[:90])
+                    continue
                 if want is None:
                     r.ob(key, None, C.mloc(rt, a), "no documented entry for this arm; inserts %s (not decided)" % sorted(got))
                 else:
